@@ -750,6 +750,20 @@ impl FileSystem for SimFs {
         if !st.disk.names.contains_key(path) {
             return Err(not_found(path));
         }
+        // is this the file CURRENT names (the manifest the next open has to find)?
+        let named = {
+            let cur = self.inner.root.join("CURRENT");
+            let content: Vec<u8> = st
+                .disk
+                .names
+                .get(&cur)
+                .and_then(|i| st.disk.inodes.get(i))
+                .cloned()
+                .unwrap_or_default();
+            let name = path.file_name().map(|x| x.to_string_lossy().to_string()).unwrap_or_default();
+            let text = String::from_utf8_lossy(&content).to_string();
+            !name.is_empty() && text.trim_end().ends_with(&name)
+        };
         self.inner.journal(
             &mut st,
             JOp::Remove {
@@ -757,7 +771,7 @@ impl FileSystem for SimFs {
             },
             "remove",
             path,
-            json!({}),
+            json!({"named": if named { 1 } else { 0 }}),
         );
         Ok(())
     }
